@@ -61,6 +61,12 @@ FRAG_GROUPS = {
     "init": (["__init__"], ["ctor"]),
     "w3c": (["is_w3c_prefix", "_is_w3c_luid", "is_w3c_curie"], []),
 }
+# Groups whose lemmas are closed by the generic finisher of FragObl_base.v (symbolic evaluation + case split on the semantic cases):
+# their proofs do not follow the shape of the source, so a translated function whose proof no longer closes differs from the model.
+# The other groups contain loop lemmas whose scripts follow the loop structure of the source (which statement writes which index,
+# which list a loop ranges over): there a failing script cannot tell a harmless restructuring from a semantic change, so it is
+# recorded (source_tie.unproved) and widens the search, but is not a violation by itself.
+FRAG_GENERIC = {"base", "uri", "curie", "std", "mixed"}
 FRAG_OF = {"C01": ["base", "uri"], "C02": ["base", "curie", "all"], "C03": ["base", "uri", "curie"], "C06": ["base", "curie", "std"],
            "C07": ["base", "uri", "curie", "mixed"], "C08": ["base", "uri", "curie", "all", "std", "mixed"],
            "C05": ["index", "merge"], "C14": ["shacl", "epm", "jsonld"], "C12": ["rewire"], "C04": ["ctor", "init"], "C18": ["triples"], "C20": ["w3c"]}
@@ -186,7 +192,7 @@ def obligations(pid: str):
             failed = json.load(open(os.path.join(COQ, "gen", "Gen.v.status.json")))
         except Exception as e:
             failed = {"frag": f"no translator status: {e!r}"}
-        source_tie = {"proved_groups": [], "inapplicable": {}, "broken": []}
+        source_tie = {"proved_groups": [], "inapplicable": {}, "broken": [], "unproved": {}}
         for g in FRAG_OF[pid]:
             fns, deps = FRAG_GROUPS[g]
             needed = [f for d in deps + [g] for f in FRAG_GROUPS[d][0]]
@@ -197,16 +203,20 @@ def obligations(pid: str):
             f = os.path.join(COQ, "gen", f"FragObl_{g}.v")
             src = re.sub(r"\(\*.*?\*\)", "", open(f).read(), flags=re.S) if os.path.exists(f) else ""
             n = len(re.findall(r"Print Assumptions", src))
-            total += n
             with open(os.path.join(ROOT, "_build", "lock"), "w") as lk:
                 fcntl.flock(lk, fcntl.LOCK_EX)
                 r = sh(f"timeout 900 coqc -Q {COQ} Curies {f}")
             closed = len(re.findall(r"Closed under the global context", r.stdout)) if r.returncode == 0 else 0
             if r.returncode != 0 or closed < n:
-                msg = f"gen/FragObl_{g}.v (the translated bodies of {', '.join(fns)} are no longer proved equal to model/Query.v): " + (r.stderr or r.stdout)[-1200:]
-                broken.append(msg)
-                source_tie["broken"].append(g)
+                msg = f"gen/FragObl_{g}.v (the translated bodies of {', '.join(fns)} are no longer proved equal to the model): " + (r.stderr or r.stdout)[-1200:]
+                if g in FRAG_GENERIC and not any(d in source_tie["unproved"] for d in deps):
+                    total += n
+                    broken.append(msg)
+                    source_tie["broken"].append(g)
+                else:
+                    source_tie["unproved"][g] = msg[-600:]
                 continue
+            total += n
             done += closed
             names += re.findall(r"(?m)^Lemma (frag_\w+)", src)
             source_tie["proved_groups"].append(g)
@@ -550,11 +560,11 @@ def run_check(plug: Plugin, tier: str, seed: int, level_note=""):
     cases += exh
     n = plug.counts[tier]
     st = obl.get("source_tie")
-    escalated = bool(st and (st["inapplicable"] or st["broken"]))
+    escalated = bool(st and (st["inapplicable"] or st["broken"] or st.get("unproved")))
     if escalated and tier == "quick":
         # the query methods of this tree are no longer (all) the ones the model is proved equal to: look harder
         n *= 4
-        log(f"[{pid}] source tie: inapplicable {sorted(st['inapplicable'])}, broken {st['broken']}: the run evaluates {n} generated cases instead of {plug.counts[tier]}")
+        log(f"[{pid}] source tie: inapplicable {sorted(st['inapplicable'])}, unproved {sorted(st.get('unproved', {}))}, broken {st['broken']}: the run evaluates {n} generated cases instead of {plug.counts[tier]}")
     total_cases = len(cases) + n
     log(f"[{pid}] {total_cases} cases ({ncorpus} corpus, {len(exh)} exhaustive block); observing the implementation ...")
     known = [k for k in load_known() if k.get("property") == pid and k.get("status") == "known"]
